@@ -69,10 +69,23 @@ pub(crate) struct TokenResult {
 
 // tokenize()
 // Runs the actual tokenizer, then ensures that any /include directives are resolved
+/// how deep /include directives may be nested; a file that (directly or indirectly) includes itself ends here with an
+/// error instead of recursing until the stack overflows
+const MAX_INCLUDE_DEPTH: usize = 64;
+
 pub(crate) fn tokenize(
     filename: &Filename,
     fileid: usize,
     filetext: &str,
+) -> Result<TokenResult, TokenizerError> {
+    tokenize_nested(filename, fileid, filetext, 0)
+}
+
+fn tokenize_nested(
+    filename: &Filename,
+    fileid: usize,
+    filetext: &str,
+    depth: usize,
 ) -> Result<TokenResult, TokenizerError> {
     let mut filenames: Vec<Filename> = vec![filename.clone()];
     let mut filedatas: Vec<String> = vec![filetext.to_owned()];
@@ -122,12 +135,18 @@ pub(crate) fn tokenize(
 
                 // check if incname is an accessible file
                 let incpathref = Path::new(&incfilename);
-                let loadresult = loader::load(incpathref);
-                if let Ok(incfiledata) = loadresult {
-                    let mut tokresult = tokenize(
+                // nested too deeply (a file that includes itself): reported like a file that cannot be loaded
+                let loadresult = if depth < MAX_INCLUDE_DEPTH {
+                    loader::load(incpathref).ok()
+                } else {
+                    None
+                };
+                if let Some(incfiledata) = loadresult {
+                    let mut tokresult = tokenize_nested(
                         &Filename::new(incfilename, incname),
                         next_fileid,
                         &incfiledata,
+                        depth + 1,
                     )?;
 
                     next_fileid += tokresult.filenames.len();
